@@ -22,6 +22,9 @@ CLAIMED = {
  "C08": dict(level="proof", design="3/C08", tech="bit-provenance abstract interpretation over inlined LLVM IR",
    text="Every write/read primitive of packed_channel_reference, packed_dynamic_channel_reference, packed_pixel and bit_aligned_pixel_reference (all carrier widths, first bits, channel widths, all 8 bit offsets) is interpreted in a domain where each stored bit is 0, 1, a copy of a named input bit or unknown; the resulting byte maps must equal the map computed from the template constants: channel bits <- value bits in order, every other bit its own previous value; get() returns exactly the channel bits. This covers all 2^k carrier contents and values at once, where the tests use one background and one value.",
    note="Trusted: clang front end, LLVM inliner/SROA/mem2reg, harness/ir/bits.py, little-endian target. Precondition: assigned value <= max. Not decided: modular values of ++/--/+= (only confinement to the channel's bits), bit-aligned iterator +n/-n value laws and distances (carry arithmetic over runtime n)."),
+ "C05": dict(level="proof", design="3/C05", tech="bit-provenance and polynomial value-numbering abstract interpretation over inlined LLVM IR (memory effects, call sequences)",
+   text="Over the cross product (value/C++ reference, planar reference, packed pixel, bit-aligned reference) x (every layout of rgb/rgba/cmyk/gray), assignment and converting construction are interpreted in the bit-provenance domain: each destination cell of a colour receives exactly the source cell of the same colour, every destination cell is written once and nothing else is; equality is the conjunction of same-colour comparisons; at_c/semantic_at_c/get_color/operator[]/dynamic_at_c addresses follow the documented mapping; static_for_each/transform/fill/generate (every const/non-const overload, 1-3 arguments, mixed layouts) call an opaque functor exactly once per channel with same-colour cells. The colour<->cell map comes from spec/c05_layouts.json, not from the code.",
+   note="Trusted: clang front end, LLVM inliner/SROA/mem2reg, harness/ir/bits.py + poly.py, spec/c05_layouts.json, little-endian target. Assumes distinct argument objects do not alias. static_min/max and device_n layouts beyond the default are not enumerated."),
 }
 NA_REASON = {
  "C19": "sums over hash-map contents filled in data-dependent loops; no static domain in reach relates container contents to pixel counts (DESIGN 3/C19)",
